@@ -24,7 +24,7 @@ INDEX = {
    {"name": "VerifH02PointOpsBTree", "common": {"max_depth": 2000}, "quick": {"bounds": {"steps": 3, "ops": 2, "keys": 2}}, "thorough": {"bounds": {"steps": 4, "ops": 3, "keys": 2}}},
  ]},
  "C03": {"package": "./roaring", "harnesses": [
-   {"name": "VerifH03Isolation", "common": {"max_depth": 3000}, "quick": {"bounds": {"array": 2, "runs": 1, "words": 1, "bases": 1, "wordmask6": 1, "runlen": 2, "derivations": 7, "mutations": 7}}},
+   {"name": "VerifH03Isolation", "common": {"max_depth": 3000}, "quick": {"bounds": {"array": 2, "runs": 1, "words": 1, "bases": 1, "wordmask6": 1, "runlen": 2, "derivations": 7, "mutations": 5, "kinds": 1, "btyps": 1}}, "thorough": {"bounds": {"array": 2, "runs": 1, "words": 1, "bases": 1, "wordmask6": 1, "runlen": 2, "derivations": 7, "mutations": 7, "kinds": 2, "btyps": 2}, "max_paths": 600000}},
  ]},
  "C04": {"package": "./roaring", "harnesses": [
    {"name": "VerifH04RoundTrip", "common": {"max_depth": 2000}, "quick": {"bounds": {"containers": 1, "array": 2, "runs": 2, "words": 1, "bases": 1, "wordmask6": 1, "keychoices": 2}}, "thorough": {"bounds": {"containers": 2, "array": 3, "runs": 3, "words": 1, "bases": 2, "wordmask6": 1, "keychoices": 2}}},
@@ -93,5 +93,8 @@ INDEX = {
  "C27": {"package": "./encoding/proto", "harnesses": [
    {"name": "VerifH27Messages", "common": {"max_depth": 3000}, "quick": {"bounds": {"strlen": 1, "slice": 1, "types": 12, "intclasses": 2}}, "thorough": {"bounds": {"strlen": 1, "slice": 2, "types": 12, "intclasses": 3}}},
    {"name": "VerifH27Garbage", "common": {"max_depth": 3000}, "quick": {"bounds": {"len": 4, "targets": 14}}, "thorough": {"bounds": {"len": 6, "targets": 14}}},
+ ]},
+ "C28": {"package": ".", "harnesses": [
+   {"name": "VerifH28WritePaths", "common": {"max_depth": 3000}, "quick": {"bounds": {"bits": 2, "rows": 2, "colhis": 1, "caches": 2}}, "thorough": {"bounds": {"bits": 2, "rows": 3, "colhis": 2, "caches": 3}}},
  ]},
 }
